@@ -6,8 +6,10 @@ RULE = ('seeded random histories: 1-4 generator scripts whose bodies start/kill/
         '(themselves included, and a non-generator object), 1-25 top-level start/kill/state/process/value '
         'operations; states of all generators observed after every operation, through the processor and '
         'through the current promise; weak references checked after gc.collect() at the end; plus the '
-        'hand-written corpus (D10, D29 witnesses); plus small-scope exhaustive enumeration: every history of '
-        '<= 4 (thorough: <= 6, two script families) operations from {start, kill} x {0, 1} and process '
+        'hand-written corpus (D10, D29, equal-deadline witnesses); plus a family in which 2-4 coroutines yield '
+        'the SAME positive wait in the same frame and waiting ones are killed and at once started again '
+        '(from outside or by a controller body), each in turn, followed by frames past the deadline; plus small-scope exhaustive enumeration: every history of '
+        '<= 4 (thorough: <= 6; three script families, one with two sleepers on the same deadline) operations from {start, kill} x {0, 1} and process '
         '{1/2 s, 1 s} over two generators that kill / restart each other and themselves.  Non-trivial: at '
         'least one body ran and at least one kill (top-level or in-body) succeeded; distinct by hash of '
         'the scenario text.')
@@ -26,13 +28,15 @@ def generate(rng, tier):
     n = 1500 if tier == 'quick' else 30000
     for _ in range(n):
         yield gen_coro.gen_lifecycle(rng, tier)
+    for _ in range(n // 3):
+        yield gen_coro.gen_same_wait(rng, tier)
     if tier == 'quick':
         # small-scope exhaustive: every history of <= 4 operations over 6 operations, 2 generators
-        yield from gen_coro.enum_lifecycle(4, families=(0, 1))
+        yield from gen_coro.enum_lifecycle(4, families=(0, 1, 2))
     else:
         for _ in range(10000):
             yield gen_coro.gen_lifecycle(rng, tier, max_gens=2, max_ops=8)
-        yield from gen_coro.enum_lifecycle(6, families=(0, 1))
+        yield from gen_coro.enum_lifecycle(6, families=(0, 1, 2))
 
 
 def project(obs):
